@@ -41,7 +41,13 @@ Bound(P, o, at, ref, r) ==
 Failures(r) ==
     LET P == [defs |-> r.defs]
         o == r.obs
-    IN  IF o.exc # ""
+        (* a crash counts when it happens in the passes C12 is about (the early run), or
+           when the early run accepted a program Scope rejects and the complete run then
+           crashes instead of rejecting it                                             *)
+        crash == IF o.exc # "" THEN o.exc
+                 ELSE IF o.errors = <<>> /\ o.late_exc # "" /\ BadDefs(P) # {} THEN "late: " \o o.late_exc
+                 ELSE ""
+    IN  IF crash # ""
         THEN {F(r, "exception:" \o
                    (CHOOSE t \in {IF "notfield" \in cs THEN "notfield"
                                   ELSE IF "parammember" \in cs THEN "parammember"
@@ -53,7 +59,7 @@ Failures(r) ==
                                   ELSE "accepted-program" :
                                      cs \in {TLCEval({Resolve(P, pr[1], P.defs[pr[1]].refs[pr[2]]).cls :
                                                 pr \in UNION {{<<at, k>> : k \in DOMAIN P.defs[at].refs} : at \in Ids(P)}})}} : TRUE),
-                "no exception", o.exc)}
+                "no exception", crash)}
         ELSE UNION {
           IF bad = {}
           THEN (IF o.errors # <<>> THEN {F(r, "spurious-error", "accepted", o.errors)} ELSE
